@@ -23,6 +23,8 @@ async def body(wf, uid, name, lat, fail):
     mon = wf._vf_mon
     mon.enter(wf._vf_idx, uid, name)
     try:
+        # runs started from INSIDE this step body (fire and forget): their tasks inherit this run's context variables
+        mon.spawn_children(uid)
         if lat == "y":
             await asyncio.sleep(0)
         elif lat:
